@@ -6,7 +6,9 @@
    map indices_ is exactly the inverse of variables_. *)
 From Coq Require Import List ZArith QArith Qcanon Bool Arith.
 From Dimod Require Import Base.Util Model.Poly Model.Expr Model.ExprOps Model.CQMSpec Proofs.PolyFacts Proofs.ExprFacts Proofs.ExprViewFacts
-  Proofs.RefineFacts Proofs.ExprSim Proofs.CqmSim Proofs.SpecEnergy.
+  Proofs.RefineFacts Proofs.ExprSim Proofs.CqmSim Proofs.SpecEnergy
+  Model.AdjMore Model.ExprBulk Model.ExprLab Gen.Gen_CQM Proofs.ExprBulkFacts Proofs.LabSim Proofs.GenCQMTie.
+From Coq Require Import Sorting.Sorted.
 Import ListNotations.
 Local Open Scope nat_scope.
 
@@ -344,6 +346,98 @@ Theorem C05_spec_view_remove_variable_energy :
 Proof. exact view_remove_variable_energy. Qed.
 Print Assumptions C05_spec_view_remove_variable_energy.
 
+(* ===================================================================================================
+   Bulk Expression::remove_variables (code shaped: Model/ExprBulk.v over utils::remove_by_index of
+   Model/AdjMore.v) is iterated single removal, highest local index first
+   =================================================================================================== *)
+Theorem C05_bulk_removal_is_iterated :
+  forall n e is_, ExprInv n e -> StronglySorted lt is_ -> Forall (fun i => (i < length (e_vars e))%nat) is_ ->
+    let b := bulk_remove_local is_ e in let r := iter_remove is_ e in
+    e_vars b = e_vars r /\ e_lin b = e_lin r /\ e_quad b = e_quad r /\ e_off b = e_off r
+    /\ ExprInv n b /\ ExprInv n r /\ abs_expr b = abs_expr r
+    /\ abs_expr b = fold_right (fun i p => Poly.remove_variable (nth i (e_vars e) 0%nat) p) (abs_expr e) is_.
+Proof. exact bulk_is_iterated. Qed.
+Print Assumptions C05_bulk_removal_is_iterated.
+
+(* from the model variables handed to remove_variables (duplicate-free; the code sorts the local indices itself) *)
+Theorem C05_remove_variables_is_iterated :
+  forall n e vs, ExprInv n e -> NoDup vs ->
+    let is_ := AdjMore.sort_nat (lookup_all vs e) in
+    StronglySorted lt is_
+    /\ ExprInv n (m_remove_variables_code vs e)
+    /\ abs_expr (m_remove_variables_code vs e) = abs_expr (iter_remove is_ e)
+    /\ e_vars (m_remove_variables_code vs e) = e_vars (iter_remove is_ e)
+    /\ e_lin (m_remove_variables_code vs e) = e_lin (iter_remove is_ e)
+    /\ e_quad (m_remove_variables_code vs e) = e_quad (iter_remove is_ e).
+Proof. exact remove_variables_is_iterated. Qed.
+Print Assumptions C05_remove_variables_is_iterated.
+
+(* ===================================================================================================
+   The label layer (Model/ExprLab.v): Variables as the list of labels; every labelled operation
+   (add/remove/fix/substitute/relabel variables, every view edit, add_constraint by move and by copy,
+   remove_constraint, attributes) resolves its labels and runs on the index-level model.
+   LState: labels duplicate-free, as many as variables, CqmInv, and every expression read through
+   the labels has the energy function of the plain polynomial over labels.
+   =================================================================================================== *)
+Theorem C05_labelled_step_refines : forall q sq o, LState q sq -> LState (lstep q o) (lsstep sq o).
+Proof. exact lstep_state. Qed.
+Print Assumptions C05_labelled_step_refines.
+
+Theorem C05_cqm_refines_spec_labels : forall ops, LState (lrun ops l_empty) (lsrun ops sl_empty).
+Proof. exact labelled_history_state. Qed.
+Print Assumptions C05_cqm_refines_spec_labels.
+
+Theorem C05_cqm_refines_spec_labels_coefficients :
+  forall ops n,
+    let q := lrun ops l_empty in let sq := lsrun ops sl_empty in
+    NoDup (l_labels q)
+    /\ sl_vars sq = combine (l_labels q) (m_info (l_q q))
+    /\ poly_coeff_eqb n (relabel (Lfun (l_labels q)) (abs_expr (m_obj (l_q q)))) (sl_obj sq) = true
+    /\ Forall2 (fun k P => poly_coeff_eqb n (relabel (Lfun (l_labels q)) (abs_expr (mc_e k))) P = true)
+               (m_cons (l_q q)) (sl_cons sq).
+Proof. exact labelled_history_coefficients. Qed.
+Print Assumptions C05_cqm_refines_spec_labels_coefficients.
+
+(* ===================================================================================================
+   Tie to the source: constants and discrete-marker rules generated by translators/cqm_rules.py
+   =================================================================================================== *)
+Theorem C05_default_bounds_generated : forall vt, default_bounds vt = gen_default_bounds vt.
+Proof. exact default_bounds_generated. Qed.
+Print Assumptions C05_default_bounds_generated.
+
+Theorem C05_flip_generated :
+  forall l q q' x, find_var l (q_vars q) = Some x -> flip l q = (q', XNone) ->
+    q_obj q' = match v_vt x with
+               | BINARY => substitute l (fst gen_flip_binary) (snd gen_flip_binary) (q_obj q)
+               | _ => substitute l (fst gen_flip_spin) (snd gen_flip_spin) (q_obj q)
+               end.
+Proof. exact flip_generated. Qed.
+Print Assumptions C05_flip_generated.
+
+Theorem C05_spin_to_binary_generated :
+  forall v p, spin_to_binary v p = substitute v (fst (fst (fst gen_spin_to_binary))) (snd (fst (fst gen_spin_to_binary))) p.
+Proof. exact spin_to_binary_generated. Qed.
+Print Assumptions C05_spin_to_binary_generated.
+
+Theorem C05_binary_to_spin_generated :
+  forall v p, binary_to_spin v p = substitute v (fst (fst (fst gen_binary_to_spin))) (snd (fst (fst gen_binary_to_spin))) p.
+Proof. exact binary_to_spin_generated. Qed.
+Print Assumptions C05_binary_to_spin_generated.
+
+Theorem C05_fix_marker_rule_generated :
+  forall l a q q' x, find_var l (q_vars q) = Some x -> fix_one l a q = (q', XNone) ->
+    map k_mark (q_cons q') =
+    map (fun k => k_mark k && negb ((gen_fix_requires_binary_nonzero && is_binary (v_vt x) && negb (Qc_eqb a 0))
+                                   && unmark_cond gen_fix_unmark (q_vars q) l k)) (q_cons q).
+Proof. exact fix_marker_rule_generated. Qed.
+Print Assumptions C05_fix_marker_rule_generated.
+
+Theorem C05_flip_marker_rule_generated :
+  forall l q q', flip l q = (q', XNone) ->
+    map k_mark (q_cons q') = map (fun k => k_mark k && negb (unmark_cond gen_flip_unmark (q_vars q) l k)) (q_cons q).
+Proof. exact flip_marker_rule_generated. Qed.
+Print Assumptions C05_flip_marker_rule_generated.
+
 (* --- the hypotheses are satisfiable on non-trivial data --- *)
 Definition ex_e : mexpr :=
   m_add_quadratic (fun _ => INTEGER) 4 1 (qc 3 1) (m_add_linear 3 (qc 5 2) (m_add_linear 0 (qc 1 1) e_empty)).
@@ -379,4 +473,18 @@ Definition ex_hist : list mop :=
 Example C05_example_history :
   e_vars (m_obj (mrun ex_hist m_empty)) = [0%nat] /\ length (m_info (mrun ex_hist m_empty)) = 1%nat
   /\ poly_coeff_eqb 3 (abs_expr (m_obj (mrun ex_hist m_empty))) (s_obj (srun ex_hist s_empty)) = true.
+Proof. vm_compute. repeat split; reflexivity. Qed.
+
+Definition ex_lab_hist : list lop :=
+  [LAddVariable 7 (mkI INTEGER (qc 0 1) (qc 5 1)); LAddVariable 3 (mkI BINARY (qc 0 1) (qc 1 1));
+   LAddVariable 9 (mkI SPIN (qc (-1) 1) (qc 1 1));
+   LEdit EObj (EAddQuadratic 9 7 (qc 3 1)); LEdit EObj (EAddLinear 3 (qc 1 2));
+   LAddConstraintMove [qc 1 1; qc 2 1] [(0, 1, qc 5 1)]%nat (qc 1 1) [9; 7]%nat 0%nat (qc 1 1);
+   LRelabel [(7, 3); (3, 7)]%nat; LSubstitute 9 (qc 2 1) (qc (-1) 1); LFixVariable 3 (qc 2 1); LRemoveVariable 7].
+
+Example C05_example_labelled_history :
+  l_labels (lrun ex_lab_hist l_empty) = [9%nat]
+  /\ poly_coeff_eqb 10 (relabel (Lfun (l_labels (lrun ex_lab_hist l_empty))) (abs_expr (m_obj (l_q (lrun ex_lab_hist l_empty)))))
+                    (sl_obj (lsrun ex_lab_hist sl_empty)) = true
+  /\ e_vars (m_remove_variables_code [4; 0; 1]%nat ex_e) = [3%nat].
 Proof. vm_compute. repeat split; reflexivity. Qed.
